@@ -303,7 +303,7 @@ int main(int argc, char **argv)
 ''')
     open(os.path.join(WORK, 'refc.c'), 'w').write('\n\n'.join(C + D) + '\n')
     log = {}
-    cmds = [['gcc', '-c', '-x', 'f77', '-std=legacy', '-w', '-O0', '-fdefault-real-8', '-fdefault-double-8', '-ffp-contract=off', '-fno-range-check', '-ffixed-line-length-none', '-fd-lines-as-comments', 'ref.for', '-o', 'ref_f.o'],
+    cmds = [['gcc', '-c', '-x', 'f77', '-std=legacy', '-w', '-O0', '-fdefault-real-8', '-fdefault-double-8', '-ffp-contract=off', '-fno-range-check', '-ffixed-line-length-none', '-fd-lines-as-comments', '-finit-local-zero', 'ref.for', '-o', 'ref_f.o'],
             ['gcc', '-c', '-std=gnu11', '-w', '-O0', '-ffp-contract=off', '-I', os.path.join(VERIF, 'shim'), 'refc.c', '-o', 'refc.o'],
             ['gcc', 'ref_f.o', 'refc.o', '-o', 'refcmp', '-lgfortran', '-lgsl', '-lgslcblas', '-lm']]
     for c in cmds:
